@@ -7,6 +7,10 @@
 #include "common/jsonval.h"
 
 #include "qtlogger/formatters/jsonformatter.h"
+#include "qtlogger/simplepipeline.h"
+
+#include <sys/wait.h>
+#include <unistd.h>
 
 using namespace QtLogger;
 using namespace verif;
@@ -36,6 +40,12 @@ QJsonObject generate()
     c["func"] = genCtxString(60);
     c["line"] = chance(70) ? pick(0, 5000) : *rc::gen::arbitrary<int>();
     c["compact"] = chance(60);
+    // how the formatter is obtained: constructed directly, through the fluent API (SimplePipeline::formatToJson) after another
+    // pipeline of the same process asked for the OTHER mode, or the documented shared instance (indented)
+    c["via"] = chance(60) ? "ctor" : (chance(75) ? "pipeline" : "instance");
+    // process-wide state (a shared formatter instance, a cached flag) is frozen by the first use in a process: a few
+    // cases therefore run "other mode first, then this mode" in a freshly forked child, where nothing was used before
+    c["fresh"] = chance(2);
     QJsonArray attrs;
     QStringList names;
     int n = sized(0, 8);
@@ -78,11 +88,48 @@ std::string run(const QJsonObject &c)
     for (auto av : attrs)
         lm.setAttribute(strFromJson(av.toArray()[0]), toVariant(av.toArray()[1].toObject()));
 
-    JsonFormatter f(compact);
-    const QString out = f.format(lm);
+    const QString via = c["via"].toString();
+    QString out;
+    if (c["fresh"].toBool()) {
+        fflush(nullptr);
+        pid_t pid = fork();
+        if (pid == 0) {
+            // a forked child inherits whatever the parent already used; only a new process image is pristine
+            setenv("VERIF_FRESH_JSON", compact ? "1" : "0", 1);
+            execl("/proc/self/exe", "rc_json", (char *)nullptr);
+            _exit(0);
+        }
+        int st = 0;
+        if (pid > 0 && waitpid(pid, &st, 0) == pid && WIFEXITED(st) && WEXITSTATUS(st) == 7)
+            return "in a fresh process, formatToJson(false) followed by formatToJson(true) on another pipeline: the compact pipeline's output contains a line break";
+        count("fresh_process_runs");
+    }
+    if (via == "pipeline") {
+        // a process may configure several JSON pipelines; each must honour its own flag, whatever was configured before
+        SimplePipeline warmup;
+        warmup.formatToJson(!compact);
+        LogMessage w(lm);
+        warmup.process(w);
+        SimplePipeline p;
+        p.formatToJson(compact);
+        LogMessage m2(lm);
+        p.process(m2);
+        if (!m2.isFormatted()) return "SimplePipeline::formatToJson did not format the message";
+        out = m2.formattedMessage();
+    } else if (via == "instance") {
+        if (compact) { // the shared instance is the indented one; nothing to decide for a compact request
+            SimplePipeline warmup;
+            warmup.formatToJson(true);
+        }
+        out = JsonFormatter::instance()->format(lm);
+    } else {
+        JsonFormatter f(compact);
+        out = f.format(lm);
+    }
+    const bool compactExpected = compact && via != "instance";
 
     // ---- one line in compact mode ----
-    if (compact) {
+    if (compactExpected) {
         for (int i = 0; i < out.size(); i++)
             if (out[i] == QChar('\n') || out[i] == QChar('\r')) {
                 return "compact output contains a line break (U+" + QString::number(out[i].unicode(), 16).toStdString() + ") at offset " + std::to_string(i);
@@ -146,7 +193,9 @@ std::string run(const QJsonObject &c)
     const bool hard = used & ((1u << SC_CONTROL) | (1u << SC_JSONSYNTAX) | (1u << SC_ASTRAL));
     for (int k = 0; k < SC_COUNT; k++) cls(std::string("class_") + strClassName(k), used & (1u << k));
     cls("nested_container", c["nested"].toBool());
-    cls("compact", compact);
+    cls("compact", compactExpected);
+    cls("via_pipeline", via == "pipeline");
+    cls("via_instance", via == "instance");
     cls("null_context_pointer", catNull || fileNull || funcNull);
     cls("long_text", text.size() > 100);
     noteCase(c, hard || c["nested"].toBool());
@@ -155,7 +204,27 @@ std::string run(const QJsonObject &c)
 
 } // namespace
 
+// pristine-process scenario (see "fresh" in generate()): other mode first, then the requested mode on another pipeline
+static int freshScenario(bool compact)
+{
+    QMessageLogContext ctx("f.cpp", 1, "fn", "cat");
+    LogMessage lm(QtInfoMsg, ctx, QStringLiteral("hello"));
+    lm.setAttribute(QStringLiteral("k"), QStringLiteral("v"));
+    SimplePipeline first;
+    first.formatToJson(!compact);
+    LogMessage w(lm);
+    first.process(w);
+    SimplePipeline second;
+    second.formatToJson(compact);
+    LogMessage m2(lm);
+    second.process(m2);
+    const QString o = m2.formattedMessage();
+    return compact && (o.contains(QChar('\n')) || o.contains(QChar('\r'))) ? 7 : 0;
+}
+
 int main()
 {
+    if (const char *f = getenv("VERIF_FRESH_JSON"))
+        return freshScenario(f[0] == '1');
     return harnessMain("C13 JSON output valid, complete, lossless; compact = one line", generate, run);
 }
